@@ -33,7 +33,7 @@ func lexAll(l lexer.Lexer, err error) ([]lexer.Token, error) {
 	return lexer.ConsumeAll(l)
 }
 
-// api-run <cases.json> <variant>: variant = core | generated | upper | generated-upper.  For every grammar, lookahead and
+// api-run <cases.json> <variant>: variant = core | generated | plain | upper | generated-upper.  For every grammar, lookahead and
 // input, every entry point is exercised; one line per call: "id\tk\tindex\tentry point\toutcome".
 func apiRun(args []string) error {
 	f, err := os.Open(args[0])
@@ -55,6 +55,11 @@ func apiRun(args []string) error {
 		}
 		lexDef = d
 		extra = append(extra, participle.Lexer(d))
+	}
+	if variant == "plain" {
+		// a definition that offers ONLY Lex(filename, reader): ParseString / ParseBytes go through the reader path
+		lexDef = plainDefinition{coreLexer}
+		extra = append(extra, participle.Lexer(lexDef))
 	}
 	if strings.HasSuffix(variant, "upper") {
 		extra = append(extra, participle.Upper("Ident"))
@@ -202,6 +207,14 @@ func apiRun(args []string) error {
 	}
 	return nil
 }
+
+// plainDefinition hides the optional LexString / LexBytes methods of a definition.
+type plainDefinition struct{ d lexer.Definition }
+
+func (p plainDefinition) Lex(filename string, r io.Reader) (lexer.Lexer, error) {
+	return p.d.Lex(filename, r)
+}
+func (p plainDefinition) Symbols() map[string]lexer.TokenType { return p.d.Symbols() }
 
 // namedReader is a reader with a name of its own (like *os.File).
 type namedReader struct {
